@@ -330,12 +330,18 @@ func c04FlexibleMarker(p *load.Program, r *oblig.Report, rule string) {
 	var blocks []*ssa.BasicBlock
 	var collect func(f *ssa.Function)
 	collect = func(f *ssa.Function) {
-		blocks = append(blocks, f.Blocks...)
+		blocks = append(blocks, an.Blocks(f)...) // with the helpers that did not exist at review time
 		for _, a := range f.AnonFuncs {
 			collect(a)
 		}
 	}
 	collect(fn)
+	// the scan may have moved into a helper that did not exist at review time (and into its function literals)
+	for _, f := range p.EveryModuleFunction() {
+		if f.Parent() == nil && f.Pkg == fn.Pkg && f != fn && an.IsNew(f) {
+			collect(f)
+		}
+	}
 	for _, b := range blocks {
 		taken, ok := evalConstTest(b, func(v ssa.Value) bool { return isFieldValue(v, "TagID") }, []int64{-2, -1, 0, 5})
 		if !ok {
@@ -608,25 +614,35 @@ func c16ShortStreamsAreUnframed(p *load.Program, r *oblig.Report, rule string) {
 			}
 		}
 	}
+	// the return that hands out the probe's error is controlled by both tests, in either order: err != nil and n == 0
 	okN := false
+	nGood, nBad := 0, 0
 	found := "the error of the probe returns whatever was read"
-	for _, b := range an.Blocks(fn) {
-		_, ci := an.IfCond(b)
-		e := ci.Edge(token.NEQ)
-		if e < 0 || an.Unwrap(ci.X) != errV || !an.IsNilConst(ci.Y) {
-			continue
+	an.EachInstr(fn, func(ins ssa.Instruction) {
+		ret, ok := ins.(*ssa.Return)
+		if !ok || ret.Parent() != fn || an.Unwrap(an.RetVal(ret, 1)) != errV {
+			return
 		}
-		// on the error edge, a return is reached only through n == 0
-		succ := b.Succs[e]
-		taken, isT := evalConstTest(succ, func(v ssa.Value) bool { return stripConvs(v) == nV }, []int64{0, 1})
-		if isT && taken[0] != taken[1] {
-			if _, isRet := succ.Succs[taken[0]].Instrs[len(succ.Succs[taken[0]].Instrs)-1].(*ssa.Return); isRet {
-				if _, alsoRet := succ.Succs[taken[1]].Instrs[len(succ.Succs[taken[1]].Instrs)-1].(*ssa.Return); !alsoRet {
-					okN = true
-					found = ""
-				}
+		underErr, underZero := false, false
+		for d, child := ret.Block().Idom(), ret.Block(); d != nil; d, child = d.Idom(), d {
+			_, ci := an.IfCond(d)
+			if e := ci.Edge(token.NEQ); e >= 0 && an.Unwrap(ci.X) == errV && an.IsNilConst(ci.Y) && edgeControls(d, e, child) {
+				underErr = true
+			}
+			if taken, isT := evalConstTest(d, func(v ssa.Value) bool { return stripConvs(v) == nV }, []int64{0, 1}); isT && taken[0] != taken[1] && edgeControls(d, taken[0], child) {
+				underZero = true
 			}
 		}
+		if underErr && underZero {
+			nGood++
+		} else if underErr {
+			nBad++
+			found = "the error of the probe is returned at " + p.Pos(ret.Pos()) + " whatever was read"
+		}
+	})
+	okN = nGood >= 1 && nBad == 0
+	if okN {
+		found = ""
 	}
 	r.Check(okN, rule, "xerialReader.readChunk gives up on the header probe only when nothing could be read", p.Pos(probe.Pos()), "if err != nil && n == 0 { return 0, err }", found)
 }
